@@ -433,9 +433,13 @@ theorem observe_eq_model (d : RD) (u : Use) :
       | .subRd o => .rd (.ok (sub d o))
       | .mulInt k => .rd (.ok (mulInt d k))
       | .addTd dd s us => .rd (.ok (addTimedelta d dd s us))
-      | .weeks => .int (weeksOf d)) := by
+      | .weeks => .int (weeksOf d)
+      | .normalized => .rd (.ok (normalizedInt d))
+      | .mulDy f => .rd (.ok (mulDyadic d f.m f.k))
+      | .divPow2 p => .rd (.ok (divPow2 d p.neg p.k))) := by
   cases u <;> simp only [observe, RDG.addDt_eq, RDG.raddDt_eq, RDG.rsubDt_eq, RDG.hashKey_eq, RDG.bool_eq, RDG.eq_eq,
-    RDG.neg_eq, RDG.abs_eq, RDG.addRd_eq, RDG.subRd_eq, RDG.mulInt_eq, RDG.addTd_rd_eq]
+    RDG.neg_eq, RDG.abs_eq, RDG.addRd_eq, RDG.subRd_eq, RDG.mulInt_eq, RDG.addTd_rd_eq, RDG.normalized_eq, RDG.mulDy_eq,
+    RDG.divPow2_eq]
 
 open RDH in
 /-- **reachable_state_is_constructed.** When the current record is in normal form (what the constructor and the operators
